@@ -89,7 +89,7 @@ fn native_clone_ops(ops: &[LeafOp]) -> Vec<LeafOp> {
         .collect()
 }
 
-/// Bounded native enumeration (not a proof): over 211 op lists on a real five-cell leaf (cells of
+/// Bounded native enumeration (not a proof): over 162 op lists on a real five-cell leaf (cells of
 /// different sizes, two of them overflow cells), each op-list rewrite keeps the sequence of
 /// (key, value bytes, overflow flag) cells the list stands for, and every KeepChunk keeps recording
 /// the true byte size of its values:
@@ -181,4 +181,123 @@ fn native_enum_leaf_find_key_contract() {
         }
     }
     assert!(cases > 30, "only {} cases", cases);
+}
+
+// ---- digest / build_leaf / try_build_leaves: bounded native enumeration ----------------------------
+// V20 proves LeafUpdater::digest against ASSUMED contracts of build_leaf ("the node's cells are the
+// list's view") and try_build_leaves ("what is emitted plus what stays is what was there"): both use
+// iterator adapters / range slicing / drain, outside Verus' subset.  Here they run for real.
+#[cfg(test)]
+struct NativeRecorder {
+    leaves: Vec<(Key, Vec<(Key, Vec<u8>, bool)>, Option<Key>)>,
+}
+#[cfg(test)]
+impl HandleNewLeaf for NativeRecorder {
+    fn handle_new_leaf(&mut self, separator: Key, node: LeafNode, cutoff: Option<Key>) -> std::io::Result<()> {
+        let cells = (0..node.n())
+            .map(|i| {
+                let (v, o) = node.value(i);
+                (node.key(i), v.to_vec(), o)
+            })
+            .collect();
+        self.leaves.push((separator, cells, cutoff));
+        Ok(())
+    }
+}
+
+/// a five-cell base leaf whose values have `base_len + 60 * i` bytes
+#[cfg(test)]
+fn native_sized_base_leaf(base_len: usize) -> (BaseLeaf, Vec<(Key, Vec<u8>, bool)>) {
+    let pool = PagePool::new();
+    let cells: Vec<(Key, Vec<u8>, bool)> = (0..5)
+        .map(|i| (native_key(i), vec![0x30 + i as u8; base_len + 60 * i], i % 2 == 1))
+        .collect();
+    let total: usize = cells.iter().map(|c| c.1.len()).sum();
+    let mut b = LeafBuilder::new(&pool, cells.len(), total);
+    for (k, v, o) in &cells {
+        b.push_cell(*k, v, *o);
+    }
+    (BaseLeaf::new(Arc::new(b.finish()), [0u8; 32]), cells)
+}
+
+/// Bounded native enumeration (not a proof) of the contracts V20 assumes for `build_leaf` and
+/// `try_build_leaves`, and of `digest` end to end, on real leaf nodes: three size classes (no split,
+/// a split in two, a bulk split), 162 op lists each (the base leaf cut at any subset of its
+/// boundaries, Inserts optionally before each segment), with and without a cutoff.  After digest:
+///  * the cells of the leaves handed to the consumer, in order, followed by the cells the remaining op
+///    list stands for, are exactly the cells the op list stood for (nothing dropped, duplicated,
+///    reordered or altered, overflow flags included);
+///  * Finished leaves the op list empty; NeedsMerge(c) has c == the cutoff and only Inserts left;
+///  * every leaf handed out is non-empty, its separator is <= its first key and > the last key of the
+///    leaf before it, the first separator is the base leaf's, and the cutoff passed with a leaf is the
+///    next leaf's separator (the updater's cutoff for the last one).
+#[cfg(test)]
+#[test]
+fn native_enum_leaf_digest_conserves_cells() {
+    let mut cases = 0;
+    let mut multi = 0;
+    for (base_len, ins_len) in [(20usize, 9usize), (500, 700), (500, 1300)] {
+        let (_, cells) = native_sized_base_leaf(base_len);
+        let mut lists = native_op_lists(&cells);
+        for ops in lists.iter_mut() {
+            for op in ops.iter_mut() {
+                if let LeafOp::Insert(_, v, _) = op { *v = vec![0xAB; ins_len + v.len()]; }
+            }
+        }
+        for ops in &lists {
+            let want = native_expand(ops, &cells);
+            assert!(want.windows(2).all(|w| w[0].0 < w[1].0));
+            // build_leaf alone, when everything fits one page
+            let n: usize = want.len();
+            let vs: usize = want.iter().map(|c| c.1.len()).sum();
+            if leaf_node::body_size(n, vs) <= LEAF_NODE_BODY_SIZE {
+                let (base, _) = native_sized_base_leaf(base_len);
+                let mut u = LeafUpdater::new(PagePool::new(), Some(base), None);
+                u.ops = native_clone_ops(ops);
+                let node = u.build_leaf(&u.ops);
+                let got: Vec<(Key, Vec<u8>, bool)> = (0..node.n()).map(|i| { let (v, o) = node.value(i); (node.key(i), v.to_vec(), o) }).collect();
+                assert!(got == want, "build_leaf does not materialise the cells its op list stands for (ops {:?})", ops);
+            }
+            for cutoff in [None, Some([0xFFu8; 32])] {
+                let (mut base, _) = native_sized_base_leaf(base_len);
+                base.low = 5;
+                let base_separator = base.separator;
+                let mut u = LeafUpdater::new(PagePool::new(), Some(base), cutoff);
+                u.ops = native_clone_ops(ops);
+                u.gauge = LeafGauge { n, value_size_sum: vs };
+                let mut rec = NativeRecorder { leaves: Vec::new() };
+                let r = u.digest(&mut rec).expect("the recorder never fails");
+                let mut got: Vec<(Key, Vec<u8>, bool)> = rec.leaves.iter().flat_map(|l| l.1.iter().cloned()).collect();
+                got.extend(native_expand(&u.ops, &cells));
+                assert!(got == want, "digest: emitted leaves + remaining ops differ from the cells the op list stood for ({} leaves emitted, {} ops left; sizes {}/{}; cutoff {:?}; ops {:?})", rec.leaves.len(), u.ops.len(), base_len, ins_len, cutoff.is_some(), ops);
+                match r {
+                    DigestResult::Finished => assert!(u.ops.is_empty(), "Finished with ops left"),
+                    DigestResult::NeedsMerge(c) => {
+                        assert!(Some(c) == cutoff, "NeedsMerge carries a key that is not the cutoff");
+                        assert!(u.ops.iter().all(|o| matches!(o, LeafOp::Insert(..))), "NeedsMerge left a KeepChunk for a base that is about to change");
+                        assert!(!u.ops.is_empty() && u.separator_override.is_some());
+                    }
+                }
+                for (i, (sep, lcells, lcut)) in rec.leaves.iter().enumerate() {
+                    assert!(!lcells.is_empty(), "an empty leaf was handed out");
+                    assert!(*sep <= lcells[0].0, "leaf {}: separator above its first key", i);
+                    if i == 0 {
+                        assert!(*sep == base_separator, "the first leaf does not keep the base leaf's separator");
+                    } else {
+                        assert!(*sep > rec.leaves[i - 1].1.last().unwrap().0, "leaf {}: separator not above the previous leaf's last key", i);
+                    }
+                    let next_sep = rec.leaves.get(i + 1).map(|l| l.0);
+                    let expect_cut = match next_sep {
+                        Some(s) => Some(s),
+                        // the last emitted leaf: followed by the merge remainder (whose separator is the override) or by the cutoff
+                        None => if u.ops.is_empty() { cutoff } else { u.separator_override },
+                    };
+                    assert!(*lcut == expect_cut, "leaf {}: cutoff passed with the leaf is not the next separator", i);
+                }
+                if rec.leaves.len() > 1 { multi += 1; }
+                cases += 1;
+            }
+        }
+    }
+    assert!(cases >= 900 && multi > 100, "only {} cases, {} with a split", cases, multi);
 }
